@@ -61,6 +61,19 @@ def run(ctx):
         comps = [(rng.randrange(2), rng.choice(IDX + [rng.randrange(B31)] * 3)) for _ in range(depth)]
         cases.append((rbytes(rng, rng.choice([16, 32, 64])), comps, "random/depth%d" % depth, None))
 
+    deep = []
+    for depth in (64, 255, 256, 257, 300, 1000):
+        comps = [(1, rng.choice([0, 1, B31 - 1, rng.randrange(B31)])) for _ in range(depth)]
+        deep.append((rbytes(rng, 32), comps))
+        if depth <= (64 if not thorough else 300):
+            cases.append((deep[-1][0], comps, "deep/%d" % depth, None))
+    rs = ctx.harness([("derive", s, text_of(c)) for s, c in deep], timeout=300)
+    for (s, c), r in zip(deep, rs):
+        ctx.count("deep-path")
+        ctx.distinct(("deep", s, len(c)))
+        ref = pyref.bip32_derive(s, [v | (B31 if h else 0) for h, v in c])
+        if (r.tag == "ok") != (ref is not None) or (r.tag == "ok" and r.fields[0] != ref.to_bytes(32, "big")) or r.tag in ("panic", "abort", "timeout"):
+            ctx.violation("never-other-key(deep path)", dict(op="hdk::derive", seed=s.hex(), depth=len(c), path=short(text_of(c), 80)), ref and hex(ref), str(r)[:200])
     impl = ctx.harness([("derive", s, text_of(c)) for s, c, _, _ in cases])
     mod = ctx.model(["c03_derive %s %s" % (pb(s), coq_list(["(%s, %s)" % (ni(h), ni(v)) for h, v in c])) for s, c, _, _ in cases],
                     label="C03", timeout=1500)
